@@ -11,6 +11,8 @@ mod stylebuild;
 mod field;
 mod bargeom;
 mod place;
+mod formats;
+mod adaptors;
 
 use std::io::{BufRead, BufWriter, Write};
 
@@ -98,6 +100,8 @@ fn main() {
         "field" => { clock::enable(); field::for_each_history(input, &mut out, field::run_history); }
         "bargeom" => { clock::enable(); field::for_each_history(input, &mut out, bargeom::run_history); }
         "place" => { clock::enable(); field::for_each_history(input, &mut out, place::run_history); }
+        "formats" => { let seed = args.get(4).and_then(|s| s.parse().ok()).unwrap_or(1); for line in input.lines() { let line = line.unwrap(); if line.trim().is_empty() { continue; } formats::run_history(&serde_json::from_str(&line).expect("bad history json"), &mut out, seed); } }
+        "adaptors" => { for line in input.lines() { let line = line.unwrap(); if line.trim().is_empty() { continue; } adaptors::run_history(&serde_json::from_str(&line).expect("bad history json"), &mut out); } }
         "show" => {
             clock::enable();
             for line in input.lines() {
